@@ -71,7 +71,7 @@ def run():
             d = {k: s[k] for k in ("type", "vectors", "nontrivial", "mismatches", "ops")}
             d["cfg"] = cfg
             cov.setdefault("replay", []).append(d)
-            cov["samples"] += [{"type": st, "vector": x} for x in s.get("samples", [])[:1]]
+            cov["samples"] += [{"type": st, "vector": x} for x in (s.get("samples") or [])[:1]]
             for r in recs:
                 if r.get("kind") == "mismatch":
                     v.fail("sets-replay:" + st, r)
@@ -94,7 +94,7 @@ def run():
     s = summ[0]
     replayed += s["vectors"]; nontrivial += s["nontrivial"]
     cov["replay"].append({k: s[k] for k in ("type", "vectors", "nontrivial", "mismatches", "drift", "ops")})
-    cov["samples"] += [{"type": "pq.Queue", "vector": x} for x in s.get("samples", [])[:2]]
+    cov["samples"] += [{"type": "pq.Queue", "vector": x} for x in (s.get("samples") or [])[:2]]
     for r in recs:
         if r.get("kind") == "mismatch":
             v.fail("pq-replay", r)
